@@ -285,7 +285,10 @@ def const_check(ctx, name, method, v, ex, calls):
     tree (its zero-variance iterations do not always get the TINY weight): reported under a fixed clause
     (known finding C14-vegas-constants) when the deviation is below 1e-6; larger deviations alarm normally."""
     rel = abs(v - ex) / abs(ex) if ex != 0 else abs(v)
-    tol = (calls + 100) * 8 * 2.0 ** -53
+    # "exactly to rounding": plain Monte Carlo sums n terms volume*c (measured ~0.2 n eps): (n+100) eps; Miser averages equal
+    # values per leaf and combines with fracl + (1-fracl) = 1 (measured <= 8.9 eps at every budget): flat 32 eps;
+    # Vegas: threshold of the known finding unchanged
+    tol = {"Monte-Carlo": (calls + 100) * 2.0 ** -53, "Miser": 32 * 2.0 ** -53}.get(method, (calls + 100) * 8 * 2.0 ** -53)
     if method == "Vegas":
         ctx["stats"]["vegas_constant_worst_rel_dev_1e-12"] = max(ctx["stats"].get("vegas_constant_worst_rel_dev_1e-12", 0), int(rel * 1e12))
     if rel <= tol:
